@@ -142,3 +142,23 @@ from pyvc.api import BOOL as _BOOL, REAL as _REAL, Tuple as _Tuple  # noqa: E402
 case(H + "unit_transform", params={"t": _Tuple(_REAL, _REAL, _REAL, _REAL, _REAL, _REAL)}, returns=_BOOL,
      ensures={"v": "result == (t[0] == 1 and t[1] == 0 and t[2] == 0 and t[3] == 1 and t[4] == 0)"}, canaries={"t": "result", "f": "not result"},
      gen=lambda rng: {"t": rng.choice([[1, 0, 0, 1, 0, 5], [1.0, 0.0, 0.0, 1.0, 0.0, 2.5], [2, 0, 0, 1, 0, 0]])}, build=lambda d: {"t": tuple(d["t"])})
+
+# ---- indexing a lambda-valued derived Map view, beta-reduced (round 4, C03 #4) -----------------------------------------------
+from pyvc.api import Map  # noqa: E402
+from pyvc.core import fresh_name  # noqa: E402
+
+
+def _reg_twice(ex, st, self):
+    d = ex.read_field(st, self, "vals")
+    n = z3.String(fresh_name("rn"))
+    return Val(Map(STR, INT), z3.Lambda([n], 2 * z3.Select(d.ty.sort().map(d.term), n)))
+
+
+cls("HReg", fields={"vals": Dict(STR, INT)}, derived={"twice": _reg_twice}, views={"twice": lambda o: {k: 2 * v for k, v in o.vals.items()}}, repo=H + "HReg")
+for _beta in (True, False):
+    case(H + "reg_bump", name=f"beta-{_beta}", params={"r": Ref("HReg"), "k": STR}, returns=INT, modifies=["HReg.vals"], beta_reduce=_beta,
+         ensures={"view": "r.twice[k] == 2 * result", "others": "all(implies(n != k, r.twice[n] == old(r.twice[n])) for n in old(r.vals))",
+                  "bumped": "implies(k in old(r.vals), r.twice[k] == old(r.twice[k]) + 2)"},
+         canaries={"view-same": "r.twice[k] == old(r.twice[k])", "by-one": "implies(k in old(r.vals), r.twice[k] == old(r.twice[k]) + 1)"},
+         gen=lambda rng: {"r": {k: rng.randint(0, 3) for k in names(rng)}, "k": rng.choice(["a", "b", "z"])},
+         build=lambda d: {"r": M.HReg(dict(d["r"])), "k": d["k"]})
